@@ -27,6 +27,14 @@ class Any(object):
     """matches anything"""
 
 
+class Subset(object):
+    """an association list of which every listed key must be present with a matching value"""
+
+    def __init__(self, items):
+        self.items = items
+
+
+
 # --------------------------------------------------------------------------- sources
 
 def source_pattern(s, shape=True):
@@ -106,7 +114,8 @@ def prim_pattern(prim, geom):
     rows = len(flat) // nind
     n = rows // k
     P = {'kind': cls, 'tag': tag, 'material': prim['material'], 'nindices': nind}
-    P['sources'] = [[sem, [[o, s, ref, st, {'id': ref[1:]}] for o, s, ref, st in spec_inputs(prim, geom, sem)]] for sem in KNOWN]
+    # the input table is a dict: its key order is not something the property fixes
+    P['sources'] = Subset([[sem, [[o, s, ref, st, {'id': ref[1:]}] for o, s, ref, st in spec_inputs(prim, geom, sem)]] for sem in KNOWN])
 
     def view(o):
         data = [flat[j * nind + o] for j in range(rows)]
@@ -163,7 +172,7 @@ def geometry_pattern(geom):
     v = geom['vertices']
     srcs = [[s['id'], source_pattern(s)] for s in geom['sources']]
     srcs.append([v['id'], {'vertices': [[sem, {'id': sid}] for sem, sid in v['inputs']]}])
-    P = {'id': geom['id'], 'sources': srcs, 'prims': [prim_pattern(p, geom) for p in geom['prims']]}
+    P = {'id': geom['id'], 'sources': Subset(srcs), 'prims': [prim_pattern(p, geom) for p in geom['prims']]}
     if geom['name'] is not None:
         P['name'] = geom['name']
     if geom['double_sided'] is not None:
@@ -269,13 +278,6 @@ def asset_pattern(A):
     if A['up_axis'] is not None:
         P['upaxis'] = A['up_axis']
     return P
-
-
-class Subset(object):
-    """an association list of which every listed key must be present with a matching value"""
-
-    def __init__(self, items):
-        self.items = items
 
 
 def animation_pattern(A):
